@@ -71,7 +71,10 @@ class C10(Prop):
     harness = "h_dist.c"
     theorems = ["EaselModel.Props.C10." + t for t in (
         "exp_cdf_monotone_0_to_1", "exp_textbook_laws", "exp_code_eq_textbook", "exp_code_cdf_add_surv", "exp_code_logs",
-        "exp_outside_support", "sample_is_inverse_of_deviate")]
+        "exp_outside_support", "sample_is_inverse_of_deviate",
+        "gumbel_cdf_monotone_0_to_1", "gumbel_textbook_laws", "gumbel_code_eq_textbook", "gumbel_code_surv_switches",
+        "gumbel_code_invsurv", "wei_textbook_laws", "wei_code_eq_textbook", "wei_outside_support",
+        "gev_textbook_laws", "gev_code_eq_textbook", "gev_gumbel_branch_partial", "gev_outside_support")]
     claimed = True
     technique = ("Lean 4 proof about the C functions translated from the working tree on every run (clang-14 AST -> Lean, polymorphic "
                  "over a numeric class): real-analysis theorems at the R instance, the same definitions executed at Float bit-for-bit "
@@ -105,7 +108,8 @@ class C10(Prop):
     def generated(self, ctx):
         text, info = c2lean.translate_all(ctx.src, c2lean.FAMILIES)
         self.tinfo = info
-        return {"EaselModel/Generated/Dist.lean": text}
+        return {"EaselModel/Generated/Dist.lean": text,
+                "EaselModel/Generated/ErfcCoef.lean": c2lean.erfc_coefficients(ctx.src)}
 
     def compare(self, ctx, case, impl_out, model_out):
         """bit-exact, except that operations on functions outside the translated set are monitor-only: the driver answers
@@ -313,6 +317,26 @@ class C10(Prop):
                 ops.append("mix fam=%s fn=invcdf x=%s %s" % (fam, dhex(p), args))
         return {"name": name, "ops": ops, "sticky": 0}
 
+    def make_special_case(self, rng, name):
+        """the special functions under the gamma/normal families, model vs code bit-for-bit (hand model Dist/Special.lean;
+           erfc: the libm symbol against esl_stats_erfc, the same Sun code)"""
+        ops = []
+        for _ in range(40):
+            x = rng.choice([self.logu(rng, 0.04, 30.0), self.logu(rng, 1e-3, 1e3), rng.choice(TAU_GRID), 1.0 / rng.choice(TAU_GRID)])
+            ops.append(op_f("esl_stats_LogGamma", [x]))
+        for _ in range(60):
+            a = rng.choice([self.logu(rng, 0.04, 25.0), rng.choice(TAU_GRID), 1.0 / rng.choice(TAU_GRID)])
+            x = rng.choice([a + 1.0, nextafter(a + 1.0, 1), nextafter(a + 1.0, -1), self.logu(rng, 1e-12, 200.0), a * rng.uniform(0.2, 3.0), 0.0])
+            ops.append(op_f("esl_stats_IncGammaP", [a, x]))
+            ops.append(op_f("esl_stats_IncGammaQ", [a, x]))
+        for t in (0.84375, 1.25, 1 / 0.35, 6.0, 28.0, 2.0 ** -56, 0.25, 0.0):
+            for k in (-1, 0, 1):
+                for sgn in (-1, 1):
+                    ops.append(op_f("esl_stats_erfc", [sgn * nextafter(t, k)]))
+        for _ in range(60):
+            ops.append(op_f("esl_stats_erfc", [rng.choice([-1, 1]) * rng.choice([self.logu(rng, 1e-20, 30.0), rng.uniform(0, 7)])]))
+        return {"name": name, "ops": ops, "sticky": 0}
+
     def corpus(self, ctx):
         rng = ctx.rng
         out = []
@@ -327,6 +351,26 @@ class C10(Prop):
         out.append({"name": "fixed-gev-logsurv-frechet", "ops": [op_f("esl_gev_logsurv", [-10.0, 0.0, 1.0, 0.5]), op_f("esl_gev_surv", [-10.0, 0.0, 1.0, 0.5])]})
         out.append({"name": "fixed-gumbel-invsurv", "ops": [op_f("esl_gumbel_invsurv", [p, -20.0, 0.7]) for p in (1e-12, 1e-16, 1e-20, 1e-300)] +
                     ["f2 fn=esl_gumbel_surv,esl_gumbel_invsurv a=%s" % ",".join(dhex(v) for v in (p, -20.0, 0.7)) for p in (1e-12, 1e-16, 1e-20)]})
+        # exact support bounds: parameters chosen as powers of two so that 1 + alpha*lambda*(x-mu) is exactly 0.0 at the bound
+        for al in (0.25, -0.25, 1.0, -1.0, 2.0, -2.0, 0.5, -0.5):
+            for lam, mu in ((0.5, 0.0), (2.0, 3.0), (1.0, -4.0)):
+                b = mu - 1.0 / (al * lam)
+                ops = []
+                for x in (b, nextafter(b, 1), nextafter(b, -1), b + 0.25, b - 0.25):
+                    for w in ("pdf", "logpdf", "cdf", "logcdf", "surv", "logsurv"):
+                        ops.append(op_f("esl_gev_" + w, [x, mu, lam, al]))
+                        ops.append(_mixop("mixgev", w, x, q=[0.5, 0.5], mu=[mu, mu], l=[lam, lam], al=[al, al]))
+                out.append({"name": "bound-gev-%r-%r-%r" % (al, lam, mu), "ops": ops})
+        for fam, shp in (("exp", []), ("wei", [0.5]), ("wei", [1.0]), ("wei", [2.0]), ("sxp", [0.5]), ("sxp", [2.0]), ("gam", [0.5]), ("gam", [2.0])):
+            pre, _, _, _, xn, _ = R.FAMILY[fam]
+            for mu, lam in ((0.0, 1.0), (3.0, 2.0), (-4.0, 0.5)):
+                ops = []
+                for x in (mu, nextafter(mu, 1), nextafter(mu, -1), mu - 1.0, mu + 2.0 ** -60):
+                    for w in xn:
+                        if fam == "gam" and self.known_gam(w, x, [mu, lam] + shp):
+                            continue
+                        ops.append(op_f(pre + w, [x, mu, lam] + shp))
+                out.append({"name": "bound-%s-%r-%r" % (fam, shp, mu), "ops": ops})
         for key, ops in KNOWN:
             out.append({"name": "known-" + key, "ops": ops, "known_key": key})
         return out
@@ -346,6 +390,8 @@ class C10(Prop):
             par = self.params(fam, rng, canonical=(rng.random() < 0.15))
             heavy = fam in ("sxp", "gam")
             out.append(self.make_case(fam, par, rng, "gen%d-%s" % (i, fam), n_grid=6 if heavy else 14, n_rand=4 if heavy else 8, deriv=1))
+        for i in range(6 if ctx.tier == "quick" else 60):
+            out.append(self.make_special_case(rng, "special%d" % i))
         for i in range(40 if ctx.tier == "quick" else 600):
             fam = ("hxp", "mixgev")[i % 2]
             out.append(self.make_mix_case(fam, rng, "mix%d-%s" % (i, fam)))
@@ -427,6 +473,8 @@ class C10(Prop):
                     floor = 4.5e-16
                     if ref < -690 and (res[0] < -690):
                         continue
+                if fam in ("sxp", "gam") and which == "logpdf":
+                    floor = 1e-9            # esl_stats_LogGamma carries log(sqrt(2 pi)) to 9 digits (0.918938533)
                 why = R.judge(res[0], band, RELTOL[fam], floor)
                 if why:
                     return Failure("monitor", "%s(%s) = %r but the closed form gives %s: %s" % (
